@@ -50,7 +50,7 @@ Example coord_nonfinite_neighbour :
                   (f64_of_f32 (f32_of_bits 0x40000000))) with  (* 2.0 *)
   | CValid x y z => (bits_of_f64c x, bits_of_f64c y, bits_of_f64c z)
   | _ => (0, 0, 0)
-  end = (nan64_bits, nan64_bits, nan64_bits).
+  end = (nan64_bits, 0x7ff0000000000000, nan64_bits).
 Proof. vm_compute. reflexivity. Qed.
 
 Section Roundtrip.
@@ -116,6 +116,81 @@ Proof.
 Qed.
 
 End Roundtrip.
+
+(** * The whole file *)
+Section File.
+Variable parse_f32 : list N -> option N.
+Variable fmt_f64_ryu : N -> list N.
+
+Definition finite_pt (p : point6) : Prop :=
+  f32_is_finite (f32_of_bits (p_x p)) = true /\ f32_is_finite (f32_of_bits (p_y p)) = true /\
+  f32_is_finite (f32_of_bits (p_z p)) = true.
+
+(** the line e57-to-xyz writes for a point e57-from-xyz stored *)
+Definition canonical_line (p : point6) : list N :=
+  coord_text fmt_f64_ryu (p_x p) ++ [32] ++ coord_text fmt_f64_ryu (p_y p) ++ [32] ++
+  coord_text fmt_f64_ryu (p_z p) ++ [32] ++ dec_N (p_r p) ++ [32] ++ dec_N (p_g p) ++ [32] ++
+  dec_N (p_b p) ++ [10].
+
+Lemma from_xyz_line_colors : forall line p, from_xyz_line parse_f32 line = Ok (Some p) ->
+  p_r p < 256 /\ p_g p < 256 /\ p_b p < 256.
+Proof.
+  intros line p. unfold from_xyz_line. destruct (utf8_valid line); cbn [negb]; [|discriminate].
+  destruct (split_sp (trim line)) as [|p0 [|p1 [|p2 [|p3 [|p4 [|p5 rest]]]]]]; try discriminate.
+  unfold parse6.
+  destruct (parse_f32 p0); [|discriminate]. destruct (parse_f32 p1); [|discriminate].
+  destruct (parse_f32 p2); [|discriminate].
+  destruct (parse_u8 p3) eqn:E3; [|discriminate]. destruct (parse_u8 p4) eqn:E4; [|discriminate].
+  destruct (parse_u8 p5) eqn:E5; [|discriminate].
+  intros H. injection H as <-. cbn [p_r p_g p_b].
+  repeat split; eapply parse_u8_lt; eassumption.
+Qed.
+
+Lemma from_xyz_colors : forall lines pts, from_xyz parse_f32 lines = Ok pts ->
+  Forall (fun p => p_r p < 256 /\ p_g p < 256 /\ p_b p < 256) pts.
+Proof.
+  intros lines pts H. apply from_xyz_ok_iff in H. destruct H as (_ & ->).
+  induction lines as [|l r IH]; cbn [flat_map]; [constructor|].
+  apply Forall_app. split; [|exact IH]. unfold line_points.
+  destruct (from_xyz_line parse_f32 l) as [[p|]|k|] eqn:E; try constructor; [|constructor].
+  eapply from_xyz_line_colors. exact E.
+Qed.
+
+Lemma view_all : forall pts, Forall finite_pt pts ->
+  Forall (fun p => p_r p < 256 /\ p_g p < 256 /\ p_b p < 256) pts ->
+  exists sps, map_res xyz_view pts = Ok sps /\ to_xyz fmt_f64_ryu sps = flat_map canonical_line pts.
+Proof.
+  induction pts as [|p r IH]; intros Hf Hc.
+  - exists []. split; reflexivity.
+  - inversion Hf as [|? ? (Fx & Fy & Fz) Hfr]; subst. inversion Hc as [|? ? (Cr & Cg & Cb) Hcr]; subst.
+    destruct (IH Hfr Hcr) as (sps & E1 & E2).
+    destruct p as [bx by_ bz cr cg cb]. cbn [p_x p_y p_z p_r p_g p_b] in *.
+    destruct (xyz_view_finite bx by_ bz cr cg cb Fx Fy Fz Cr Cg Cb) as (vr & vg & vb & Ev & Ur & Ug & Ub).
+    eexists. split.
+    + cbn [map_res]. rewrite Ev. cbn [res_bind]. rewrite E1. cbn [res_map]. reflexivity.
+    + unfold to_xyz in *. cbn [flat_map]. rewrite E2. f_equal.
+      unfold to_xyz_point, canonical_line, coord_text, u8_text. cbn [sp_cart sp_color p_x p_y p_z p_r p_g p_b].
+      rewrite Ur, Ug, Ub, !N2Z.id. rewrite <- !app_assoc. reflexivity.
+Qed.
+
+(** e57-from-xyz then e57-to-xyz: if the input parses to points with finite
+    coordinates, the output is one canonical line per point, in input order
+    (which lines give points: [from_xyz_ok_iff], [from_xyz_line_skip_iff]) *)
+Theorem xyz_roundtrip_file : forall input pts,
+  from_xyz parse_f32 (xyz_lines input) = Ok pts -> Forall finite_pt pts ->
+  xyz_roundtrip parse_f32 fmt_f64_ryu input = Ok (flat_map canonical_line pts).
+Proof.
+  intros input pts H Hf. unfold xyz_roundtrip. rewrite H. cbn [res_bind].
+  destruct (view_all pts Hf (from_xyz_colors _ _ H)) as (sps & E1 & E2).
+  rewrite E1. cbn [res_map]. rewrite E2. reflexivity.
+Qed.
+
+(** and it fails exactly when from-xyz fails *)
+Theorem xyz_roundtrip_err : forall input k,
+  from_xyz parse_f32 (xyz_lines input) = Err k -> xyz_roundtrip parse_f32 fmt_f64_ryu input = Err k.
+Proof. intros input k H. unfold xyz_roundtrip. rewrite H. reflexivity. Qed.
+
+End File.
 
 (** * A run of the whole text-to-text model on a concrete file, with the
     oracles given by finite tables (what Rust's functions return on these texts) *)
